@@ -129,41 +129,71 @@ mod verif_nx_filefmt {
         assert!(n > 1_000, "enumeration ran");
     }
 
-    // a batch: files that cannot be decoded neither change nor disturb the others, whatever the scheduling
+    // a batch: every file gets exactly the result it gets alone; failing files (undecodable, missing) neither change nor
+    // disturb the others; exactly the failing files are reported - for several pool sizes, failure patterns and repetitions
+    // (schedules are sampled by repetition, not enumerated)
     #[test]
     fn verif_nx_filefmt_batch() {
         let mut n = 0u64;
-        for threads in [1usize, 3] {
-            let dir = std::env::temp_dir().join(format!("verif_nx_ffb_{}_{}", std::process::id(), threads));
-            std::fs::create_dir_all(&dir).unwrap();
-            let mut paths: Vec<String> = Vec::new();
-            let mut expect: Vec<Vec<u8>> = Vec::new();
-            for i in 0..40 {
-                let path = dir.join(format!("b{:02}.pas", i));
-                let (bytes, exp): (Vec<u8>, Vec<u8>) = if i % 2 == 0 {
-                    let bad = vec![b'x', b'0' + (i % 10) as u8, 0xFF, b';'];
-                    (bad.clone(), bad)
-                } else {
-                    (format!("a{}   :=   {};", i, i).into_bytes(), format!("a{} := {};", i, i).into_bytes())
-                };
-                std::fs::write(&path, &bytes).unwrap();
-                paths.push(path.to_string_lossy().to_string());
-                expect.push(exp);
+        let mut round = 0;
+        for threads in [1usize, 2, 3, 8] {
+            for pattern in 0..4usize {
+                for _rep in 0..2 {
+                    round += 1;
+                    let dir = std::env::temp_dir().join(format!("verif_nx_ffb_{}_{}", std::process::id(), round));
+                    std::fs::create_dir_all(&dir).unwrap();
+                    let mut paths: Vec<String> = Vec::new();
+                    let mut expect: Vec<Option<Vec<u8>>> = Vec::new();
+                    let mut failing = 0usize;
+                    for i in 0..36usize {
+                        let path = dir.join(format!("b{:02}.pas", i));
+                        let fail = match pattern { 0 => i % 2 == 0, 1 => i % 3 == 0, 2 => i < 18, _ => false };
+                        if fail && i % 4 == 1 {
+                            // a path that does not exist
+                            paths.push(path.to_string_lossy().to_string());
+                            expect.push(None);
+                            failing += 1;
+                            continue;
+                        }
+                        let body = format!("a{}   :=   {};{}", i, i, "  x;".repeat(i % 5));
+                        let formatted = format!("a{} := {};{}", i, i, " x;".repeat(i % 5));
+                        let (bytes, exp): (Vec<u8>, Vec<u8>) = if fail {
+                            failing += 1;
+                            let bad = vec![b'x', b'0' + (i % 10) as u8, 0xFF, b';', b' ', b' '];
+                            (bad.clone(), bad)
+                        } else if i % 7 == 3 {
+                            let mut a = vec![0xFF, 0xFE]; a.extend(utf16(&body, true));
+                            let mut b = vec![0xFF, 0xFE]; b.extend(utf16(&formatted, true));
+                            (a, b)
+                        } else {
+                            (body.into_bytes(), formatted.into_bytes())
+                        };
+                        std::fs::write(&path, &bytes).unwrap();
+                        paths.push(path.to_string_lossy().to_string());
+                        expect.push(Some(exp));
+                    }
+                    let f = ff(encoding_rs::UTF_8);
+                    let errors = std::sync::atomic::AtomicUsize::new(0);
+                    let pool = rayon::ThreadPoolBuilder::new().num_threads(threads).build().unwrap();
+                    pool.install(|| f.format_files(&paths, |_e| { errors.fetch_add(1, std::sync::atomic::Ordering::SeqCst); }, &[]));
+                    let e = errors.load(std::sync::atomic::Ordering::SeqCst);
+                    assert!(e == failing, "OB filefmt/batch_errors_per_file: exactly the failing files are reported\n threads={} pattern={} errors={} failing={}", threads, pattern, e, failing);
+                    for (i, p) in paths.iter().enumerate() {
+                        match &expect[i] {
+                            None => assert!(!std::path::Path::new(p).exists(), "OB filefmt/batch_equals_single: a missing file is not created\n file={}", i),
+                            Some(exp) => {
+                                let got = std::fs::read(p).unwrap();
+                                assert!(&got == exp, "OB filefmt/batch_equals_single: in a batch every file gets the result it gets alone; failing files stay untouched\n threads={} pattern={} file={} got={:?} expected={:?}", threads, pattern, i, String::from_utf8_lossy(&got), String::from_utf8_lossy(exp));
+                            }
+                        }
+                        n += 1;
+                    }
+                    let _ = std::fs::remove_dir_all(&dir);
+                }
             }
-            let f = ff(encoding_rs::UTF_8);
-            let errors = std::sync::atomic::AtomicUsize::new(0);
-            let pool = rayon::ThreadPoolBuilder::new().num_threads(threads).build().unwrap();
-            pool.install(|| f.format_files(&paths, |_e| { errors.fetch_add(1, std::sync::atomic::Ordering::SeqCst); }, &[]));
-            assert!(errors.load(std::sync::atomic::Ordering::SeqCst) == 20, "OB filefmt/batch_errors_per_file: exactly the undecodable files are reported\n threads={} errors={}", threads, errors.load(std::sync::atomic::Ordering::SeqCst));
-            for (i, p) in paths.iter().enumerate() {
-                let got = std::fs::read(p).unwrap();
-                assert!(got == expect[i], "OB filefmt/batch_equals_single: in a batch every file gets the result it gets alone; undecodable files stay untouched\n threads={} file={} got={:?} expected={:?}", threads, i, String::from_utf8_lossy(&got), String::from_utf8_lossy(&expect[i]));
-                n += 1;
-            }
-            let _ = std::fs::remove_dir_all(&dir);
         }
         println!("NX filefmt_batch: {} cases", n);
-        assert!(n == 80, "enumeration ran");
+        assert!(n == 36 * 32, "enumeration ran");
     }
 
     // files mode / check mode on real files
